@@ -131,22 +131,23 @@ def repair_psi(l1, l2, psi4):
 
 
 @st.composite
-def psi_strategy(draw, l1, l2, forms=('none', 'zero', 'int', 'int', 'tuple', 'tuple', 'list', 'list', 'npint', 'nptuple')):
+def psi_strategy(draw, l1, l2, forms=('none', 'zero', 'int', 'int', 'tuple', 'tuple', 'list', 'list', 'npint', 'nptuple', 'npuint', 'nputuple')):
     """Returns (psi value as passed to the library (JSON form), number of repairs)."""
     form = draw(st.sampled_from(forms))
     if form == 'none':
         return None, 0
     if form == 'zero':
         return 0, 0
-    if form in ('int', 'npint'):
+    if form in ('int', 'npint', 'npuint'):
         k = draw(st.integers(1, max(1, min(l1, l2))))
         n = 0
         while k > 0 and ref.degenerate_psi(l1, l2, (k, k, k, k)):
             k -= 1
             n += 1
-        if form == 'npint':
-            # one integer, as integer arithmetic on array shapes produces it (numpy.int64)
-            return {'form': 'npint', 'v': [k, k, k, k]}, n
+        if form in ('npint', 'npuint'):
+            # one integer, as integer arithmetic on array shapes produces it (numpy.int64), or an unsigned one (numpy.uint8,
+            # e.g. read from a header / a small-integer array), whose differences would wrap around
+            return {'form': form, 'v': [k, k, k, k]}, n
         return k, n
     p = (draw(st.integers(0, l1)), draw(st.integers(0, l1)), draw(st.integers(0, l2)), draw(st.integers(0, l2)))
     # bias: many zeros so that single relaxations are frequent
@@ -160,14 +161,17 @@ def psi_strategy(draw, l1, l2, forms=('none', 'zero', 'int', 'int', 'tuple', 'tu
 def psi_to_lib(psi):
     """JSON form -> value handed to the library."""
     if isinstance(psi, dict):
-        if psi['form'] in ('npint', 'nptuple'):
+        if psi['form'] in ('npint', 'nptuple', 'npuint', 'nputuple'):
+            one = psi['form'] in ('npint', 'npuint')
             try:
                 import numpy as np
             except ImportError:       # the NumPy-free interpreter: plain integers
-                return int(psi['v'][0]) if psi['form'] == 'npint' else tuple(psi['v'])
+                return int(psi['v'][0]) if one else tuple(psi['v'])
             if np is None:
-                return int(psi['v'][0]) if psi['form'] == 'npint' else tuple(psi['v'])
-            return np.int64(psi['v'][0]) if psi['form'] == 'npint' else tuple(np.int64(v) for v in psi['v'])
+                return int(psi['v'][0]) if one else tuple(psi['v'])
+            if psi['form'] in ('npuint', 'nputuple'):
+                return np.uint8(psi['v'][0]) if one else tuple(np.uint64(v) for v in psi['v'])
+            return np.int64(psi['v'][0]) if one else tuple(np.int64(v) for v in psi['v'])
         return tuple(psi['v']) if psi['form'] == 'tuple' else list(psi['v'])
     return psi
 
@@ -230,7 +234,8 @@ INNER_ALL = ('squared euclidean', 'squared euclidean', 'euclidean', 'custom_cubi
 
 @st.composite
 def dtw_case(draw, max_len=8, ndim=1, inners=INNER_NAMES, with_max_step=True, with_mld=True,
-             psi_forms=('none', 'zero', 'int', 'tuple', 'list'), min_len=1):
+             psi_forms=('none', 'none', 'zero', 'zero', 'int', 'int', 'tuple', 'tuple', 'list', 'list', 'npint', 'nptuple', 'npuint',
+                        'nputuple'), min_len=1):
     s1, s2, regime = draw(series_pair(max_len=max_len, ndim=ndim, min_len=min_len))
     l1, l2 = len(s1), len(s2)
     base = regime[0] if regime[0] in 'LF' else 'F'
